@@ -117,11 +117,15 @@ def run(W, chk):
         refunds = sends_to(A, {"Store(FARMS).owner"})
         if not rem or not refunds:
             continue
-        res = [same_iteration(W, rem[0], r) for r in refunds]
+        from rules.common import enclosing_iteration_elements
+        res = []
+        for r in refunds:
+            els = enclosing_iteration_elements(W, A, r)
+            res.append(None if not els else any("Store(FARMS)" in exact_origins(x) for x in els))   # built while iterating whole farms
         if any(x is None for x in res):
-            chk.skip("ERR-refund-per-farm", "/".join(vp), "loop structure not recognised")
+            chk.skip("ERR-refund-per-farm", "/".join(vp), "the refund is not built inside an iteration")
             continue
-        chk.expect(all(res), "ERR-refund-per-farm", "/".join(vp), "each tolerated refund is built in the iteration that removes its farm (one sub-message per farm)",
+        chk.expect(all(res), "ERR-refund-per-farm", "/".join(vp), "each tolerated refund is built while iterating the closed farms (one sub-message per farm)",
                    "the tolerated refund is not built per closed farm (it is assembled outside the loop that removes the farms): one failing denom takes the other refunds of "
                    "the same message with it", where(refunds[0]))
     modes = {(c, m) for (c, w, vp, m, e, A) in seen}
